@@ -48,20 +48,35 @@ def replay_mesh(model, cls="SinglePhaseReservoir", nx=5):
     import numpy as np
     from .c04 import real_capture, _real_fluid
     t = np.array([0.0, 0.013, 0.05])
-    fluid = None if cls == "IdealReservoir" else _real_fluid()
-    res, calls = real_capture(cls, nx, t, fluid, None if fluid is None else np.full(3, 1000.0))
-    xs = np.linspace(0, 1, nx) if fluid is None else np.linspace(1 / nx, 1, nx)
-    pp = np.asarray(res.pseudopressure, float)
+    fluids = [None] if cls == "IdealReservoir" else [_real_fluid()]
+    if cls != "IdealReservoir":
+        # the same table with its diffusivity expressed in other units (only the ratio alpha/alpha_i enters the documented
+        # problem): field units x 1e-17 (tiny numbers, as SI values for tight rock are)
+        from scipy.interpolate import interp1d
+        base = fluids[0]
+
+        class Rescaled:
+            m_i = base.m_i
+            m_scaled_func = base.m_scaled_func
+            pvt_props = base.pvt_props
+            alpha = interp1d(np.asarray(base.alpha.x, float), np.asarray(base.alpha.y, float) * 1e-17, bounds_error=False,
+                             fill_value=(float(np.min(base.alpha.y)) * 1e-17, float(np.max(base.alpha.y)) * 1e-17))
+        fluids.append(Rescaled())
     problems = []
-    for i, c in enumerate(calls):
-        dt = t[i + 1] - t[i]
-        prev = np.minimum(pp[i], 1.0 if fluid is None else float(fluid.m_i))
-        a = np.ones(nx) if fluid is None else fluid.alpha(prev) / fluid.alpha(fluid.m_i)
-        got = c["A"] @ xs**2
-        for j in range(1, nx - 1):
-            want = xs[j] ** 2 - 2 * dt * a[j]
-            if abs(got[j] - want) > 1e-9 * (1 + abs(want)):
-                problems.append(f"step {i} row {j}: (A x^2)_j = {got[j]!r} vs x_j^2 - 2 dt a_j = {want!r}")
+    for fluid in fluids:
+        res, calls = real_capture(cls, nx, t, fluid, None if fluid is None else np.full(3, 1000.0))
+        xs = np.linspace(0, 1, nx) if fluid is None else np.linspace(1 / nx, 1, nx)
+        pp = np.asarray(res.pseudopressure, float)
+        for i, c in enumerate(calls):
+            dt = t[i + 1] - t[i]
+            prev = np.minimum(pp[i], 1.0 if fluid is None else float(fluid.m_i))
+            a = np.ones(nx) if fluid is None else fluid.alpha(prev) / fluid.alpha(fluid.m_i)
+            got = c["A"] @ xs**2
+            for j in range(1, nx - 1):
+                want = xs[j] ** 2 - 2 * dt * a[j]
+                if abs(got[j] - want) > 1e-9 * (1 + abs(want)):
+                    problems.append(f"{'shipped gas table' if fluid is fluids[0] else 'shipped gas table, diffusivity in units 1e-17 times smaller'}: "
+                                    f"step {i} row {j}: (A x^2)_j = {got[j]!r} vs x_j^2 - 2 dt a_j = {want!r}")
     return bool(problems), {"what": f"{cls} nx={nx}: " + ("; ".join(problems[:2]) or "interior rows exact for x^2 on the documented nodes"), "inputs": {}}
 
 
@@ -145,6 +160,8 @@ def job_interior(job, cls, nx):
             if not d.is_zero() and not T.rational_equal(P(got), P(want)):
                 bad.append(T.b_not(T.b_eq0(d)))
         hyp = [] if fluid is None else [T.b_le(P(_u(coef, xs[i], t.d[1])[0]), P(fluid.m_i)) for i in range(nx)]
+        if fluid is not None:
+            hyp = hyp + list(fluid.alpha.pending)      # range of the diffusivity lookups made for the reference (if the code read the nodes)
         job.prove(f"L1/{cls}[nx={nx}]/reach[path{k}]", pr.pc + hyp, expect="sat", elim=True)
         job.prove(f"L1/{cls}[nx={nx}]: interior rows exact for cubic-in-x, linear-in-t test functions on the code's mesh[path{k}]",
                   pr.pc + hyp + [T.b_or(*bad) if bad else T.b_const(False)], bound=f"nx={nx}, any dt, any coefficients, any diffusivity",
